@@ -19,6 +19,10 @@
     `position_at_one_last_float_false_example` — path `[(76.8, 0), (399.6, 0)]`: progress 1 yields `x = 399.59998`
     (`0x43c7cccc`), not `399.6` (`0x43c7cccd`); smallest one-decimal witness `0.3 → 0.1` gives `0.099999994`.
     `position_at_one_last_float_exact`: it is the last point whenever `p0 + (p1 − p0) = p1` coordinate-wise.
+    `position_at_vertex_float`: the same at every inner vertex whose cumulative length the progress hits exactly.
+  * `position_at_nan_float`: a NaN progress gives a NaN distance, the search answers the last index
+    (`idxOfDist_nan_float`) and both coordinates are NaN.
+  Not proved here: `0 ≤ progress_to_dist ≤ dist` for `0 ≤ q ≤ 1` (needs monotonicity of the rounded product).
 -/
 import RosuModel.Props.C19Ieee
 import RosuModel.Lemmas.FloatExactOps
@@ -256,5 +260,173 @@ theorem position_at_zero_infinite_example :
     (match positionAt (P := Float32) [⟨1, 3⟩, ⟨10, 20⟩] [(0 : Float), 1 / 0] 0 with
       | .ok p => p.x.isNaN && p.y.isNaN
       | .error _ => false) = true := by decide +kernel
+
+/-! ## 3. progress `≥ 1`: the last path point **up to the rounding of `p0 + (p1 − p0)`** -/
+
+/-- the interpolation weight at the far end of a segment with a finite non-zero length is exactly `1.0f32`. -/
+theorem weight_at_end_float (d0 d1 : Float) (h : FX.FiniteNonzero64 (d1 - d0)) :
+    (Cvt.down ((d1 - d0) / (d1 - d0)) : Float32) = 1 := by
+  rw [FX.div_self_float _ h, FX.down_one]
+
+/-- interpolating at the far end of a non-degenerate finite segment: `p0 + (p1 − p0)`, f32 arithmetic. -/
+theorem interpolate_at_vertex_float (path : List (Pos Float32)) (lengths : List Float) (t : Nat)
+    (p0 p1 : Pos Float32) (d0 d1 : Float) (ht : t ≠ 0) (hp1 : path[t]? = some p1) (hp0 : path[t - 1]? = some p0)
+    (hd0 : lengths[t - 1]? = some d0) (hd1 : lengths[t]? = some d1)
+    (hdeg : Scalar.le (Scalar.abs (d0 - d1)) (Scalar.eps : Float) = false) (hden : FX.FiniteNonzero64 (d1 - d0)) :
+    interpolateVertices path lengths t d1 = .ok (p0 + (p1 - p0)) := by
+  rw [interpolate_formula path lengths t d1 p0 p1 d0 d1 ht hp1 hp0 hd0 hd1 hdeg, weight_at_end_float d0 d1 hden]
+  congr 2
+  show Pos.smul (p1 - p0) 1 = p1 - p0
+  simp only [Pos.smul, FX.mul_one_float32]
+
+/-- **`position_at_vertex_float`** — IEEE: on strictly increasing lengths, if the progress maps to the cumulative length of
+vertex `t + 1` exactly and the segment `t → t + 1` is non-degenerate with a finite non-zero length, the position is
+`path[t] + (path[t+1] − path[t])` computed in f32 — equal to `path[t+1]` up to the rounding of that difference and sum. -/
+theorem position_at_vertex_float (path : List (Pos Float32)) (lengths : List Float) (hs : StrictSorted lengths)
+    (q : Float) (t : Nat) (p0 p1 : Pos Float32) (d0 : Float) (hp0 : path[t]? = some p0) (hp1 : path[t + 1]? = some p1)
+    (hd0 : lengths[t]? = some d0) (hq : lengths[t + 1]? = some (progressToDist lengths q))
+    (hdeg : Scalar.le (Scalar.abs (d0 - progressToDist lengths q)) (Scalar.eps : Float) = false)
+    (hden : FX.FiniteNonzero64 (progressToDist lengths q - d0)) :
+    positionAt path lengths q = .ok (p0 + (p1 - p0)) := by
+  unfold positionAt
+  simp only []
+  rw [idxOfDist_hit_float lengths hs (t + 1) _ hq]
+  exact interpolate_at_vertex_float path lengths (t + 1) p0 p1 d0 _ (by omega) hp1 hp0 hd0 hq hdeg hden
+
+/-- `dist` is the last entry. -/
+theorem dist_of_last (lengths : List Float) (n : Nat) (d1 : Float) (hlen : lengths.length = n + 1)
+    (hd1 : lengths[n]? = some d1) : dist lengths = d1 := by
+  unfold dist
+  rw [List.getLast?_eq_getElem?, hlen, Nat.add_sub_cancel, hd1]
+
+/-- **`position_at_one_last_float`** — IEEE doubles / singles, the driver's instances: on strictly increasing cumulative
+lengths whose last segment `d0 → d1` is non-degenerate (`|d0 − d1| > ε`) with a finite non-zero `d1 − d0`, the position at
+EVERY progress `q ≥ 1` (`+∞` included) is `p0 + (p1 − p0)` in f32 arithmetic, `p0`, `p1` the last two path points:
+`1 * d1 = d1`, the search finds the last index, the weight is exactly `1` and `· 1` is exact. What is left is the rounding
+of `p1 − p0` and of the sum. -/
+theorem position_at_one_last_float (path : List (Pos Float32)) (lengths : List Float) (q : Float)
+    (hq : Scalar.le (1 : Float) q = true) (hs : StrictSorted lengths) (n : Nat)
+    (hlen : lengths.length = n + 2) (p0 p1 : Pos Float32) (d0 d1 : Float)
+    (hp0 : path[n]? = some p0) (hp1 : path[n + 1]? = some p1)
+    (hd0 : lengths[n]? = some d0) (hd1 : lengths[n + 1]? = some d1)
+    (hdeg : Scalar.le (Scalar.abs (d0 - d1)) (Scalar.eps : Float) = false)
+    (hden : FX.FiniteNonzero64 (d1 - d0)) :
+    positionAt path lengths q = .ok (p0 + (p1 - p0)) := by
+  have hd : progressToDist lengths q = d1 := by
+    rw [(progress_clamped_float lengths q).2.1 hq]; exact dist_of_last lengths (n + 1) d1 hlen hd1
+  exact position_at_vertex_float path lengths hs q n p0 p1 d0 hp0 hp1 hd0 (by rw [hd]; exact hd1)
+    (by rw [hd]; exact hdeg) (by rw [hd]; exact hden)
+
+/-- … hence it IS the last point whenever `p0 + (p1 − p0) = p1` holds for both coordinates in f32 (e.g. when the
+difference is exactly representable). -/
+theorem position_at_one_last_float_exact (path : List (Pos Float32)) (lengths : List Float) (q : Float)
+    (hq : Scalar.le (1 : Float) q = true) (hs : StrictSorted lengths) (n : Nat)
+    (hlen : lengths.length = n + 2) (p0 p1 : Pos Float32) (d0 d1 : Float)
+    (hp0 : path[n]? = some p0) (hp1 : path[n + 1]? = some p1)
+    (hd0 : lengths[n]? = some d0) (hd1 : lengths[n + 1]? = some d1)
+    (hdeg : Scalar.le (Scalar.abs (d0 - d1)) (Scalar.eps : Float) = false)
+    (hden : FX.FiniteNonzero64 (d1 - d0))
+    (hx : p0.x + (p1.x - p0.x) = p1.x) (hy : p0.y + (p1.y - p0.y) = p1.y) :
+    positionAt path lengths q = .ok p1 := by
+  rw [position_at_one_last_float path lengths q hq hs n hlen p0 p1 d0 d1 hp0 hp1 hd0 hd1 hdeg hden]
+  congr 1
+  show Pos.add p0 (Pos.sub p1 p0) = p1
+  cases p1
+  simp only [Pos.add, Pos.sub] at *
+  rw [hx, hy]
+
+/-- `[0, 100]` is strictly increasing. -/
+theorem strictSorted_two (a b : Float) (h : Scalar.lt a b = true) : StrictSorted [a, b] := by
+  intro i j x y hij hi hj
+  have hj' : j < 2 := by
+    rcases Nat.lt_or_ge j 2 with h | h
+    · exact h
+    · rw [List.getElem?_eq_none (by simpa using h)] at hj; cases hj
+  have : i = 0 ∧ j = 1 := by omega
+  obtain ⟨rfl, rfl⟩ := this
+  simp at hi hj; subst hi hj; exact h
+
+/-- non-vacuity of the exact form: integer coordinates, progress `2.5`. -/
+example : positionAt (P := Float32) [⟨76, 0⟩, ⟨399, 5⟩] [(0 : Float), 100] 2.5 = .ok ⟨399, 5⟩ :=
+  position_at_one_last_float_exact _ _ _ (by decide +kernel) (strictSorted_two _ _ (by decide +kernel)) 0 rfl
+    ⟨76, 0⟩ ⟨399, 5⟩ 0 100 rfl rfl rfl rfl (by decide +kernel) (by decide +kernel) (by decide +kernel) (by decide +kernel)
+
+/-- **`position_at_one_last` is FALSE for the real arithmetic.** The two-point curve `(76.8, 0) → (399.6, 0)` with lengths
+`[0, 100]` satisfies every hypothesis of the exact theorem (strictly increasing by more than `ε`, as many lengths as
+points), and at progress 1 `position_at` returns `x = 0x43c7cccc = 399.59998`, one ulp below the last point's
+`x = 0x43c7cccd = 399.6f32`: `399.6 − 76.8` rounds to `322.80002` and `76.8 + 322.80002` rounds down. (Second conjunct: the
+value is the `p0 + (p1 − p0)` of `position_at_one_last_float`. Third: the smallest one-decimal witness, `0.3 → 0.1` gives
+`0.099999994`.) -/
+theorem position_at_one_last_float_false_example :
+    posBits (positionAt [⟨76.8, 0⟩, ⟨399.6, 0⟩] [(0 : Float), 100] 1) = some (0x43c7cccc, 0) ∧
+    (399.6 : Float32).toBits.toNat = 0x43c7cccd ∧
+    ((76.8 : Float32) + ((399.6 : Float32) - 76.8)).toBits.toNat = 0x43c7cccc ∧
+    posBits (positionAt [⟨0.3, 0⟩, ⟨0.1, 0⟩] [(0 : Float), 1] 1) = some (0x3dcccccc, 0) ∧
+    (0.1 : Float32).toBits.toNat = 0x3dcccccd := by decide +kernel
+
+/-- the witness satisfies the hypotheses of `position_at_one_last_float` (so that theorem is not vacuous, and its
+conclusion is the rounded value, not the last point). -/
+example : positionAt [⟨76.8, 0⟩, ⟨399.6, 0⟩] [(0 : Float), 100] 1 =
+    .ok ((⟨76.8, 0⟩ : Pos Float32) + ((⟨399.6, 0⟩ : Pos Float32) - ⟨76.8, 0⟩)) :=
+  position_at_one_last_float _ _ _ (by decide +kernel) (strictSorted_two _ _ (by decide +kernel)) 0 rfl
+    _ _ 0 100 rfl rfl rfl rfl (by decide +kernel) (by decide +kernel)
+
+/-- the statement of the exact theorem `position_at_one_last`, read on the driver's instances, is refuted by the witness. -/
+theorem position_at_one_last_statement_false_float :
+    ¬ (∀ (path : List (Pos Float32)) (lengths : List Float), StrictSorted lengths →
+        (∀ i x y, lengths[i]? = some x → lengths[i + 1]? = some y →
+          Scalar.le (Scalar.abs (x - y)) (Scalar.eps : Float) = false) →
+        path.length = lengths.length → ∀ hne : path ≠ [],
+        posBits (positionAt path lengths 1) = posBits (.ok (path.getLast hne))) := by
+  intro h
+  have h1 := h [⟨76.8, 0⟩, ⟨399.6, 0⟩] [(0 : Float), 100] (strictSorted_two _ _ (by decide +kernel))
+    (by
+      intro i x y hx hy
+      have hi : i = 0 := by
+        rcases Nat.lt_or_ge (i + 1) 2 with h | h
+        · omega
+        · rw [List.getElem?_eq_none (by simpa using h)] at hy; cases hy
+      subst hi
+      simp at hx hy; subst hx hy; decide +kernel)
+    rfl (by simp)
+  revert h1
+  decide +kernel
+
+/-! ## 4. a NaN progress -/
+
+/-- every comparison with a NaN distance is `Equal` (`partial_cmp(..).unwrap_or(Equal)`), so std's loop moves `base` to
+every probe and `idx_of_dist` answers the LAST index. -/
+theorem idxOfDist_nan_float (lengths : List Float) (d : Float) (hd : Scalar.isNaN d = true) (hne : lengths ≠ []) :
+    idxOfDist lengths d = lengths.length - 1 := by
+  have hpos : 0 < lengths.length := List.length_pos_iff.mpr hne
+  have hc : ∀ x : Float, cmpLen x d = .eq := by
+    intro x; unfold cmpLen; rw [FMO.lt_nan_right _ _ hd, FMO.lt_nan_left _ _ hd]; rfl
+  apply idxOfDist_of_cmp _ _ _ (by omega)
+  · intro j h1 h2; omega
+  · intro j _; rw [hc]; rfl
+  · exact hc _
+
+/-- **position at a NaN progress**: on a curve whose last segment is non-degenerate both coordinates are NaN — the NaN
+distance selects the last segment and poisons the weight. (`progress` is never NaN in rosu-map's own callers; this is what
+the public `position_at` does.) -/
+theorem position_at_nan_float (path : List (Pos Float32)) (lengths : List Float) (q : Float)
+    (hq : Scalar.isNaN q = true) (n : Nat) (hlen : lengths.length = n + 2) (p0 p1 : Pos Float32) (d0 d1 : Float)
+    (hp0 : path[n]? = some p0) (hp1 : path[n + 1]? = some p1)
+    (hd0 : lengths[n]? = some d0) (hd1 : lengths[n + 1]? = some d1)
+    (hdeg : Scalar.le (Scalar.abs (d0 - d1)) (Scalar.eps : Float) = false) :
+    positionAt path lengths q = .ok ⟨FMO.nan32, FMO.nan32⟩ := by
+  have hd : progressToDist lengths q = FMO.nan64 := (progress_clamped_float lengths q).2.2.1 hq
+  have hne : lengths ≠ [] := by intro h; rw [h] at hlen; cases hlen
+  unfold positionAt
+  simp only []
+  rw [hd, idxOfDist_nan_float lengths _ (by decide +kernel) hne, hlen, show n + 2 - 1 = n + 1 by omega,
+    interpolate_formula path lengths (n + 1) _ p0 p1 d0 d1 (by omega) hp1 hp0 hd0 hd1 hdeg,
+    FX.nan_sub_float, FX.nan_div_float, FX.down_nan]
+  congr 1
+  show Pos.add p0 (Pos.smul (Pos.sub p1 p0) FMO.nan32) = _
+  simp only [Pos.add, Pos.smul, FX.mul_nan_float32, FX.add_nan_float32]
+
+example : positionAt [⟨1, 3⟩, ⟨10, 20⟩, ⟨20, 5⟩] [(0 : Float), 5, 9] (0 / 0) = .ok ⟨FMO.nan32, FMO.nan32⟩ :=
+  position_at_nan_float _ _ _ (by decide +kernel) 1 rfl ⟨10, 20⟩ ⟨20, 5⟩ 5 9 rfl rfl rfl rfl (by decide +kernel)
 
 end Rosu.C19
